@@ -8,13 +8,14 @@ mod manual_c16;
 mod manual_c20;
 mod manual_c15;
 mod manual_c17;
+mod manual_c04;
 mod wire;
 use std::io::{BufRead, Write};
 use std::panic::{catch_unwind, AssertUnwindSafe};
 use wire::Args;
 
 /// contributed manual op tables: add `mod manual_<tag>;` above and `manual_<tag>::dispatch` here
-pub static CONTRIB: &[fn(&str, &str, &mut Args) -> Option<String>] = &[manual_c13b::dispatch, manual_c19::dispatch, manual_c11::dispatch, manual_c16::dispatch, manual_c20::dispatch, manual_c15::dispatch, manual_c17::dispatch];
+pub static CONTRIB: &[fn(&str, &str, &mut Args) -> Option<String>] = &[manual_c13b::dispatch, manual_c19::dispatch, manual_c11::dispatch, manual_c16::dispatch, manual_c20::dispatch, manual_c15::dispatch, manual_c17::dispatch, manual_c04::dispatch];
 
 fn main() {
     std::panic::set_hook(Box::new(|_| {}));
@@ -22,6 +23,8 @@ fn main() {
     let stdout = std::io::stdout();
     let mut out = std::io::BufWriter::new(stdout.lock());
     let hang_ms: u64 = std::env::var("RVH_HANG_MS").ok().and_then(|v| v.parse().ok()).unwrap_or(10000);
+    let max_hangs: u64 = std::env::var("RVH_MAX_HANGS").ok().and_then(|v| v.parse().ok()).unwrap_or(u64::MAX);
+    let mut hangs: u64 = 0;
     for line in stdin.lock().lines() {
         let line = line.unwrap();
         let mut toks: Vec<String> = line.split_whitespace().map(|s| s.to_string()).collect();
@@ -56,7 +59,16 @@ fn main() {
         let limit = std::time::Duration::from_millis(hang_ms);
         match rx.recv_timeout(limit) {
             Ok(r) => writeln!(out, "{}", r).unwrap(),
-            Err(_) => writeln!(out, "HANG").unwrap(),
+            Err(_) => {
+                writeln!(out, "HANG").unwrap();
+                // the hung thread keeps spinning: after a few of them give the process up (exit code 3);
+                // the caller restarts the harness on the remaining lines
+                hangs += 1;
+                if hangs >= max_hangs {
+                    out.flush().unwrap();
+                    std::process::exit(3);
+                }
+            }
         }
     }
 }
